@@ -2,7 +2,7 @@
 # detect_all.sh <out.jsonl> <mutant-dir> <ID>...   run the named checks (quick) against one seeded change
 OUT="$1"; D="$2"; shift 2
 for ID in "$@"; do
-  res=$(VERIF_MAX_REPORT=2 /verif/tools/try_mutant.sh "$D/patch.diff" "$ID" quick 2>&1)
+  res=$(VERIF_MAX_REPORT=2 "$(dirname "$0")/try_mutant.sh" "$D/patch.diff" "$ID" quick 2>&1)
   rc=$(echo "$res" | grep -oE "^rc=[0-9]+" | head -1 | cut -d= -f2)
   sig=$(echo "$res" | grep -E "signature:" | head -2 | sed 's/^ *signature: //' | tr '\n' ';')
   fa=$(echo "$res" | grep -c "FALSE-ALARM")
